@@ -78,3 +78,91 @@ func VerifOrOneNegOneNonNeg(neg IntRange, non IntRange) IntRange {
 
 // VerifInPlaceUnite calls z.inPlaceUnite(w); z must own its *big.Int values.
 func VerifInPlaceUnite(z *IntRange, w IntRange) { z.inPlaceUnite(w) }
+
+// Per-function hooks for the remaining unexported helpers.
+
+func VerifBigIntMul(i *big.Int, j *big.Int) *big.Int { return bigIntMul(i, j) }
+func VerifBigIntQuo(i *big.Int, j *big.Int) *big.Int { return bigIntQuo(i, j) }
+func VerifBigIntLsh(i *big.Int, j *big.Int) *big.Int { return bigIntLsh(i, j) }
+func VerifBigIntRsh(i *big.Int, j *big.Int) *big.Int { return bigIntRsh(i, j) }
+func VerifBigIntNewSet(i *big.Int) *big.Int          { return bigIntNewSet(i) }
+func VerifBigIntNewNot(i *big.Int) *big.Int          { return bigIntNewNot(i) }
+func VerifBitMask(n0 int, n1 int) *big.Int           { return bitMask(n0, n1) }
+func VerifMakeEmptyRange() IntRange                  { return makeEmptyRange() }
+func VerifJustZero(x IntRange) bool                  { return x.justZero() }
+func VerifMulLsh(x IntRange, y IntRange, shift bool) IntRange {
+	return x.mulLsh(y, shift)
+}
+
+// VerifSmallBitMasks returns copies of the entries of the smallBitMasks table.
+func VerifSmallBitMasks() []*big.Int {
+	out := make([]*big.Int, len(smallBitMasks))
+	for i, m := range smallBitMasks {
+		out[i] = big.NewInt(0).Set(m)
+	}
+	return out
+}
+
+// VerifSharedName names the package-level *big.Int that p is ("one",
+// "minusOne", "mask<n>"), or returns "" if p is none of them.
+func VerifSharedName(p *big.Int) string {
+	if p == nil {
+		return ""
+	}
+	if p == one {
+		return "one"
+	}
+	if p == minusOne {
+		return "minusOne"
+	}
+	for i, m := range smallBitMasks {
+		if p == m {
+			b := []byte("mask")
+			b = big.NewInt(int64(i)).Append(b, 10)
+			return string(b)
+		}
+	}
+	return ""
+}
+
+// VerifBiggerInt is a biggerInt: Extra < 0 is -∞, Extra > 0 is +∞, otherwise I.
+type VerifBiggerInt struct {
+	Extra int32
+	I     *big.Int
+}
+
+func verifToBI(v VerifBiggerInt) biggerInt   { return biggerInt{extra: v.Extra, i: v.I} }
+func verifFromBI(v biggerInt) VerifBiggerInt { return VerifBiggerInt{Extra: v.extra, I: v.i} }
+
+// VerifNewBiggerIntPair returns newBiggerIntPair().
+func VerifNewBiggerIntPair() [2]VerifBiggerInt {
+	p := newBiggerIntPair()
+	return [2]VerifBiggerInt{verifFromBI(p[0]), verifFromBI(p[1])}
+}
+
+// VerifLowerMin returns p after p.lowerMin(y).
+func VerifLowerMin(p [2]VerifBiggerInt, y VerifBiggerInt) [2]VerifBiggerInt {
+	q := biggerIntPair{verifToBI(p[0]), verifToBI(p[1])}
+	q.lowerMin(verifToBI(y))
+	return [2]VerifBiggerInt{verifFromBI(q[0]), verifFromBI(q[1])}
+}
+
+// VerifRaiseMax returns p after p.raiseMax(y).
+func VerifRaiseMax(p [2]VerifBiggerInt, y VerifBiggerInt) [2]VerifBiggerInt {
+	q := biggerIntPair{verifToBI(p[0]), verifToBI(p[1])}
+	q.raiseMax(verifToBI(y))
+	return [2]VerifBiggerInt{verifFromBI(q[0]), verifFromBI(q[1])}
+}
+
+// VerifToIntRange returns p.toIntRange().
+func VerifToIntRange(p [2]VerifBiggerInt) IntRange {
+	q := biggerIntPair{verifToBI(p[0]), verifToBI(p[1])}
+	return q.toIntRange()
+}
+
+// VerifFromIntRange returns a biggerIntPair after fromIntRange(y).
+func VerifFromIntRange(y IntRange) [2]VerifBiggerInt {
+	q := newBiggerIntPair()
+	q.fromIntRange(y)
+	return [2]VerifBiggerInt{verifFromBI(q[0]), verifFromBI(q[1])}
+}
